@@ -19,21 +19,21 @@ def UnitV {α : Type} [Add α] [Mul α] [One α] (a : V3 α) : Prop := a.x * a.x
 
 variable {α : Type} [Field α] [LinearOrder α] [IsStrictOrderedRing α]
 
-theorem V3_normalized_zero (tmin : α) {sqrt : α → α} (hsqrt : SqrtSpec sqrt) :
-    Gen.C10.V3.normalized tmin sqrt ⟨0, 0, 0⟩ = ⟨0, 0, 0⟩ := by
+theorem V3_normalized_zero (tmin tmax : α) {sqrt : α → α} (hsqrt : SqrtSpec sqrt) :
+    Gen.C10.V3.normalized tmin tmax sqrt ⟨0, 0, 0⟩ = ⟨0, 0, 0⟩ := by
   have h0 : sqrt 0 = 0 := C08.sqrt_zero hsqrt
-  simp only [Gen.C10.V3.normalized, C08.V3_length_eq tmin hsqrt]
+  simp only [Gen.C10.V3.normalized, C08.V3_length_eq tmin tmax hsqrt]
   simp [h0]
 
-theorem V3_normalized_of_ne_zero (tmin : α) {sqrt : α → α} (hsqrt : SqrtSpec sqrt) (a : V3 α) (ha : a ≠ ⟨0, 0, 0⟩) :
-    Gen.C10.V3.normalized tmin sqrt a =
+theorem V3_normalized_of_ne_zero (tmin tmax : α) {sqrt : α → α} (hsqrt : SqrtSpec sqrt) (a : V3 α) (ha : a ≠ ⟨0, 0, 0⟩) :
+    Gen.C10.V3.normalized tmin tmax sqrt a =
       ⟨a.x / sqrt (a.x * a.x + a.y * a.y + a.z * a.z), a.y / sqrt (a.x * a.x + a.y * a.y + a.z * a.z),
-       a.z / sqrt (a.x * a.x + a.y * a.y + a.z * a.z)⟩ ∧ UnitV (Gen.C10.V3.normalized tmin sqrt a) := by
+       a.z / sqrt (a.x * a.x + a.y * a.y + a.z * a.z)⟩ ∧ UnitV (Gen.C10.V3.normalized tmin tmax sqrt a) := by
   obtain ⟨hl, hll⟩ := sqrt_len2 hsqrt a ha
-  have e : Gen.C10.V3.normalized tmin sqrt a =
+  have e : Gen.C10.V3.normalized tmin tmax sqrt a =
       ⟨a.x / sqrt (a.x * a.x + a.y * a.y + a.z * a.z), a.y / sqrt (a.x * a.x + a.y * a.y + a.z * a.z),
        a.z / sqrt (a.x * a.x + a.y * a.y + a.z * a.z)⟩ := by
-    simp only [Gen.C10.V3.normalized, C08.V3_length_eq tmin hsqrt, hl, ↓reduceIte]
+    simp only [Gen.C10.V3.normalized, C08.V3_length_eq tmin tmax hsqrt, hl, ↓reduceIte]
   refine ⟨e, ?_⟩
   rw [e]; simp only [UnitV]
   generalize sqrt (a.x * a.x + a.y * a.y + a.z * a.z) = l at hl hll
@@ -61,24 +61,24 @@ theorem rotateVector_eq_mulQuat' {β : Type} [CommRing β] (q : Quat β) (v : V3
 
 /-- `setRotationInternal (f, t)` for unit f, t with f + t ≠ 0: a unit quaternion that carries f onto t,
 with vector part parallel to f × t -/
-theorem sri_spec (tmin : α) {sqrt : α → α} (hsqrt : SqrtSpec sqrt) (f t : V3 α) (hf : UnitV f) (ht : UnitV t)
+theorem sri_spec (tmin tmax : α) {sqrt : α → α} (hsqrt : SqrtSpec sqrt) (f t : V3 α) (hf : UnitV f) (ht : UnitV t)
     (hs : (⟨f.x + t.x, f.y + t.y, f.z + t.z⟩ : V3 α) ≠ ⟨0, 0, 0⟩) :
-    UnitQ (Gen.C10.Quat.setRotationInternal tmin sqrt f t) ∧
-    Gen.C10.V3.mulQuat f (Gen.C10.Quat.setRotationInternal tmin sqrt f t) = t ∧
-    Gen.C10.Quat.rotateVector (Gen.C10.Quat.setRotationInternal tmin sqrt f t) f = t ∧
-    (∃ k : α, (Gen.C10.Quat.setRotationInternal tmin sqrt f t).v =
+    UnitQ (Gen.C10.Quat.setRotationInternal tmin tmax sqrt f t) ∧
+    Gen.C10.V3.mulQuat f (Gen.C10.Quat.setRotationInternal tmin tmax sqrt f t) = t ∧
+    Gen.C10.Quat.rotateVector (Gen.C10.Quat.setRotationInternal tmin tmax sqrt f t) f = t ∧
+    (∃ k : α, (Gen.C10.Quat.setRotationInternal tmin tmax sqrt f t).v =
       ⟨k * (f.y * t.z - f.z * t.y), k * (f.z * t.x - f.x * t.z), k * (f.x * t.y - f.y * t.x)⟩) := by
   obtain ⟨hl, hll⟩ := sqrt_len2 hsqrt _ hs
   simp only at hl hll
   obtain ⟨fx, fy, fz⟩ := f
   obtain ⟨tx, ty, tz⟩ := t
   simp only [UnitV] at hf ht
-  have e : Gen.C10.Quat.setRotationInternal tmin sqrt ⟨fx, fy, fz⟩ ⟨tx, ty, tz⟩ =
+  have e : Gen.C10.Quat.setRotationInternal tmin tmax sqrt ⟨fx, fy, fz⟩ ⟨tx, ty, tz⟩ =
       (let L := sqrt ((fx + tx) * (fx + tx) + (fy + ty) * (fy + ty) + (fz + tz) * (fz + tz))
        ⟨fx * ((fx + tx) / L) + fy * ((fy + ty) / L) + fz * ((fz + tz) / L),
         ⟨fy * ((fz + tz) / L) - fz * ((fy + ty) / L), fz * ((fx + tx) / L) - fx * ((fz + tz) / L),
          fx * ((fy + ty) / L) - fy * ((fx + tx) / L)⟩⟩) := by
-    simp only [Gen.C10.Quat.setRotationInternal, C08.V3_length_eq tmin hsqrt, hl, ↓reduceIte]
+    simp only [Gen.C10.Quat.setRotationInternal, C08.V3_length_eq tmin tmax hsqrt, hl, ↓reduceIte]
   rw [e]
   simp only
   generalize sqrt ((fx + tx) * (fx + tx) + (fy + ty) * (fy + ty) + (fz + tz) * (fz + tz)) = L at hl hll
@@ -127,11 +127,11 @@ theorem rot_half_turn (n v : V3 α) (hn : UnitV n) (hp : n.x * v.x + n.y * v.y +
 
 /-- the antipodal fallback: for a non-zero `w` orthogonal to `f`, `(0, w.normalized ())` is a unit quaternion
 that maps f to -f -/
-theorem fallback_spec (tmin : α) {sqrt : α → α} (hsqrt : SqrtSpec sqrt) (f w : V3 α)
+theorem fallback_spec (tmin tmax : α) {sqrt : α → α} (hsqrt : SqrtSpec sqrt) (f w : V3 α)
     (hw : w ≠ ⟨0, 0, 0⟩) (hperp : w.x * f.x + w.y * f.y + w.z * f.z = 0) :
-    UnitQ (⟨0, Gen.C10.V3.normalized tmin sqrt w⟩ : Quat α) ∧
-    Gen.C10.Quat.rotateVector ⟨0, Gen.C10.V3.normalized tmin sqrt w⟩ f = ⟨-f.x, -f.y, -f.z⟩ := by
-  obtain ⟨e, hu⟩ := V3_normalized_of_ne_zero tmin hsqrt w hw
+    UnitQ (⟨0, Gen.C10.V3.normalized tmin tmax sqrt w⟩ : Quat α) ∧
+    Gen.C10.Quat.rotateVector ⟨0, Gen.C10.V3.normalized tmin tmax sqrt w⟩ f = ⟨-f.x, -f.y, -f.z⟩ := by
+  obtain ⟨e, hu⟩ := V3_normalized_of_ne_zero tmin tmax hsqrt w hw
   obtain ⟨hl, _⟩ := sqrt_len2 hsqrt w hw
   constructor
   · simp only [UnitV] at hu
@@ -160,27 +160,27 @@ set_option hygiene false in
 macro "gsplit" : tactic => `(tactic| (split_ifs with hc <;> simp only [hc, ↓reduceIte]))
 
 /-- the fallback leaves: whichever coordinate axis is chosen, the result is a unit quaternion mapping f to -f -/
-theorem fallback_leaves (tmin : α) {sqrt : α → α} (hsqrt : SqrtSpec sqrt) (fx fy fz : α) (hf : UnitV (⟨fx, fy, fz⟩ : V3 α)) :
+theorem fallback_leaves (tmin tmax : α) {sqrt : α → α} (hsqrt : SqrtSpec sqrt) (fx fy fz : α) (hf : UnitV (⟨fx, fy, fz⟩ : V3 α)) :
     let r : Quat α :=
       if fx * fx ≤ fy * fy then
         if fx * fx ≤ fz * fz then
-          ⟨0, Gen.C10.V3.normalized tmin sqrt ⟨fy * 0 - fz * 0, fz * 1 - fx * 0, fx * 0 - fy * 1⟩⟩
+          ⟨0, Gen.C10.V3.normalized tmin tmax sqrt ⟨fy * 0 - fz * 0, fz * 1 - fx * 0, fx * 0 - fy * 1⟩⟩
         else if fy * fy ≤ fz * fz then
-          ⟨0, Gen.C10.V3.normalized tmin sqrt ⟨fy * 0 - fz * 1, fz * 0 - fx * 0, fx * 1 - fy * 0⟩⟩
-        else ⟨0, Gen.C10.V3.normalized tmin sqrt ⟨fy * 1 - fz * 0, fz * 0 - fx * 1, fx * 0 - fy * 0⟩⟩
+          ⟨0, Gen.C10.V3.normalized tmin tmax sqrt ⟨fy * 0 - fz * 1, fz * 0 - fx * 0, fx * 1 - fy * 0⟩⟩
+        else ⟨0, Gen.C10.V3.normalized tmin tmax sqrt ⟨fy * 1 - fz * 0, fz * 0 - fx * 1, fx * 0 - fy * 0⟩⟩
       else if fy * fy ≤ fz * fz then
-        ⟨0, Gen.C10.V3.normalized tmin sqrt ⟨fy * 0 - fz * 1, fz * 0 - fx * 0, fx * 1 - fy * 0⟩⟩
-      else ⟨0, Gen.C10.V3.normalized tmin sqrt ⟨fy * 1 - fz * 0, fz * 0 - fx * 1, fx * 0 - fy * 0⟩⟩
+        ⟨0, Gen.C10.V3.normalized tmin tmax sqrt ⟨fy * 0 - fz * 1, fz * 0 - fx * 0, fx * 1 - fy * 0⟩⟩
+      else ⟨0, Gen.C10.V3.normalized tmin tmax sqrt ⟨fy * 1 - fz * 0, fz * 0 - fx * 1, fx * 0 - fy * 0⟩⟩
     UnitQ r ∧ Gen.C10.Quat.rotateVector r ⟨fx, fy, fz⟩ = ⟨-fx, -fy, -fz⟩ := by
   have hu := hf
   simp only [UnitV] at hu
   have hx2 := mul_self_nonneg fx; have hy2 := mul_self_nonneg fy; have hz2 := mul_self_nonneg fz
   intro r
   have key : ∀ w : V3 α, w.x * w.x + w.y * w.y + w.z * w.z ≠ 0 → w.x * fx + w.y * fy + w.z * fz = 0 →
-      UnitQ (⟨0, Gen.C10.V3.normalized tmin sqrt w⟩ : Quat α) ∧
-      Gen.C10.Quat.rotateVector ⟨0, Gen.C10.V3.normalized tmin sqrt w⟩ ⟨fx, fy, fz⟩ = ⟨-fx, -fy, -fz⟩ := by
+      UnitQ (⟨0, Gen.C10.V3.normalized tmin tmax sqrt w⟩ : Quat α) ∧
+      Gen.C10.Quat.rotateVector ⟨0, Gen.C10.V3.normalized tmin tmax sqrt w⟩ ⟨fx, fy, fz⟩ = ⟨-fx, -fy, -fz⟩ := by
     intro w hw hp
-    apply fallback_spec tmin hsqrt ⟨fx, fy, fz⟩ w _ hp
+    apply fallback_spec tmin tmax hsqrt ⟨fx, fy, fz⟩ w _ hp
     intro h; apply hw; rw [h]; simp
   simp only [r]
   split_ifs with h1 h2 h3 h4
@@ -210,14 +210,14 @@ theorem rotateVector_mul' {β : Type} [CommRing β] (q1 q2 : Quat β) (v : V3 β
   congr 1 <;> ring
 
 /-- the split path: q1 = sri (f, h), q2 = sri (h, t) with h the normalised halfway vector -/
-theorem split_spec (tmin : α) {sqrt : α → α} (hsqrt : SqrtSpec sqrt) (f t : V3 α) (hf : UnitV f) (ht : UnitV t)
+theorem split_spec (tmin tmax : α) {sqrt : α → α} (hsqrt : SqrtSpec sqrt) (f t : V3 α) (hf : UnitV f) (ht : UnitV t)
     (hc : -1 < f.x * t.x + f.y * t.y + f.z * t.z) :
-    let h := Gen.C10.V3.normalized tmin sqrt ⟨f.x + t.x, f.y + t.y, f.z + t.z⟩
-    let q1 := Gen.C10.Quat.setRotationInternal tmin sqrt f h
-    let q2 := Gen.C10.Quat.setRotationInternal tmin sqrt h t
+    let h := Gen.C10.V3.normalized tmin tmax sqrt ⟨f.x + t.x, f.y + t.y, f.z + t.z⟩
+    let q1 := Gen.C10.Quat.setRotationInternal tmin tmax sqrt f h
+    let q2 := Gen.C10.Quat.setRotationInternal tmin tmax sqrt h t
     UnitV h ∧ UnitQ (Gen.C10.Quat.mul q1 q2) ∧ Gen.C10.Quat.rotateVector (Gen.C10.Quat.mul q1 q2) f = t := by
   have hs := sum_ne_zero f t hf ht hc
-  obtain ⟨eh, hH⟩ := V3_normalized_of_ne_zero tmin hsqrt _ hs
+  obtain ⟨eh, hH⟩ := V3_normalized_of_ne_zero tmin tmax hsqrt _ hs
   obtain ⟨hl, hll⟩ := sqrt_len2 hsqrt _ hs
   have hsum := sum_len2 f t hf ht
   simp only at eh hl hll
@@ -249,8 +249,8 @@ theorem split_spec (tmin : α) {sqrt : α → α} (hsqrt : SqrtSpec sqrt) (f t :
     rw [this]
     have : 0 < (1 + (f.x * t.x + f.y * t.y + f.z * t.z)) / L := div_pos (by linarith) hLpos
     linarith
-  obtain ⟨u1, _, r1, k1, hv1⟩ := sri_spec tmin hsqrt f h hf hH (sum_ne_zero f h hf hH hfh)
-  obtain ⟨u2, _, r2, k2, hv2⟩ := sri_spec tmin hsqrt h t hH ht (sum_ne_zero h t hH ht hht)
+  obtain ⟨u1, _, r1, k1, hv1⟩ := sri_spec tmin tmax hsqrt f h hf hH (sum_ne_zero f h hf hH hfh)
+  obtain ⟨u2, _, r2, k2, hv2⟩ := sri_spec tmin tmax hsqrt h t hH ht (sum_ne_zero h t hH ht hht)
   refine ⟨hH, ?_, ?_⟩
   · simp only [UnitQ] at *; rw [normSq_mul', u1, u2, mul_one]
   · -- q1 and q2 have vector parts parallel to f × t: they commute
